@@ -1,9 +1,11 @@
 // verif_harness: drives the real encoding_rs API and records ndjson traces for TLC trace validation.
 mod dec;
+mod enc;
 mod inputs;
 mod util;
 
 use dec::*;
+use enc::{EHistCfg, ESink, Source};
 use inputs::*;
 use util::*;
 
@@ -320,6 +322,311 @@ fn dec_bom(cx: &mut Ctx) {
     }
 }
 
+// ------------------------------------------------------------------------------------------------
+// encoder profiles
+
+pub const ENC_SCALARS: [u32; 40] = [
+    0x0E, 0x1B, 0x20, 0x41, 0x5C, 0x7E, 0x7F, 0x80, 0xA5, 0xE9, 0x3A9, 0x410, 0x5D0, 0x1E3F, 0xE78D, 0xE864, 0x20AC, 0x203E, 0x2212, 0x2550,
+    0x3000, 0x3042, 0x30A2, 0x4E00, 0x4EDD, 0x9FA5, 0xAC00, 0xE5E5, 0xE7C7, 0xF780, 0xF7FF, 0xFF61, 0xFF9F, 0xFFE5, 0xFFFD, 0x2008A, 0x1F4A9,
+    0x10FFFF, 0x7FF, 0x800,
+];
+pub const LONE: [u32; 2] = [0xD83D, 0xDCA9];
+
+fn short_alphabet(name: &str) -> Vec<u32> {
+    match name {
+        "ISO-2022-JP" => vec![0x41, 0x5C, 0x1B, 0xA5, 0x203E, 0x3042, 0xFF61, 0x2212, 0x4E00, 0xE9, 0x1F4A9],
+        "gb18030" | "GBK" => vec![0x41, 0x80, 0x20AC, 0xE9, 0x4E00, 0xE5E5, 0xE7C7, 0xE78D, 0x1F4A9, 0x3000],
+        "Big5" => vec![0x41, 0x2550, 0x4E00, 0x2008A, 0xE9, 0x1F4A9, 0x3000],
+        "EUC-JP" | "Shift_JIS" => vec![0x41, 0x5C, 0xA5, 0x203E, 0x2212, 0xFF61, 0x3042, 0x4E00, 0x80, 0x1F4A9, 0xE9],
+        "EUC-KR" => vec![0x41, 0xAC00, 0x4E00, 0x3000, 0xE9, 0x1F4A9],
+        "UTF-8" | "UTF-16BE" | "UTF-16LE" | "replacement" => vec![0x41, 0x7F, 0x80, 0x7FF, 0x800, 0xFFFF, 0x10000, 0x10FFFF],
+        "x-user-defined" => vec![0x41, 0xF780, 0xF7FF, 0x80, 0x1F4A9],
+        _ => vec![0x41, 0x80, 0xA0, 0xE9, 0x410, 0x20AC, 0x3042, 0x1F4A9],
+    }
+}
+
+fn ehc(e: &'static encoding_rs::Encoding, source: Source, sink: ESink, repl: bool) -> EHistCfg {
+    EHistCfg { enc: e, source, sink, repl, twins: false, prelen: 0 }
+}
+
+fn ewhole(cx: &mut Ctx, cfg: &EHistCfg, items: &[u32], q: bool) {
+    let big = items.len() * 12 + 32;
+    let mut caps = |_i: usize| if q { enc::CapSpec::Query(0) } else { enc::CapSpec::Fixed(big) };
+    enc::run_chunked(&mut cx.sh, cfg, items, &[], &mut caps, false);
+}
+
+/// one scalar through a fresh encoder (whole stream, last = true); returns (res, um, out)
+fn encode_one(e: &'static encoding_rs::Encoding, source: Source, cp: u32) -> (char, u32, usize, Vec<u8>) {
+    let mut encoder = e.new_encoder();
+    let mut dst = [0u8; 32];
+    let c = char::from_u32(cp).unwrap();
+    match source {
+        Source::Utf8 => {
+            let mut b = [0u8; 4];
+            let s: &str = c.encode_utf8(&mut b);
+            let (r, rd, wr) = encoder.encode_from_utf8_without_replacement(s, &mut dst, true);
+            let ok = rd == s.len();
+            match r {
+                encoding_rs::EncoderResult::InputEmpty => (if ok { 'I' } else { 'X' }, 0, rd, dst[..wr].to_vec()),
+                encoding_rs::EncoderResult::OutputFull => ('O', 0, rd, dst[..wr].to_vec()),
+                encoding_rs::EncoderResult::Unmappable(u) => (if ok { 'U' } else { 'X' }, u as u32, rd, dst[..wr].to_vec()),
+            }
+        }
+        Source::Utf16 => {
+            let mut b = [0u16; 2];
+            let s: &[u16] = c.encode_utf16(&mut b);
+            let (r, rd, wr) = encoder.encode_from_utf16_without_replacement(s, &mut dst, true);
+            let ok = rd == s.len();
+            match r {
+                encoding_rs::EncoderResult::InputEmpty => (if ok { 'I' } else { 'X' }, 0, rd, dst[..wr].to_vec()),
+                encoding_rs::EncoderResult::OutputFull => ('O', 0, rd, dst[..wr].to_vec()),
+                encoding_rs::EncoderResult::Unmappable(u) => (if ok { 'U' } else { 'X' }, u as u32, rd, dst[..wr].to_vec()),
+            }
+        }
+    }
+}
+
+/// C03 aggregate: every scalar value alone through every encoder.  One "ES" event per (encoder, source,
+/// range): the complete list of scalars that were mapped, with their bytes, and the list of scalars whose
+/// answer had any other shape than "mapped" or "Unmappable(that scalar)" (a fact, not a judgement).
+fn enc_sweep(cx: &mut Ctx) {
+    use std::fmt::Write;
+    let names: Vec<&str> = ENC_NAMES.iter().cloned().filter(|n| cx.wants(n)).collect();
+    for name in names.iter() {
+        let e = enc(name);
+        for source in [Source::Utf8, Source::Utf16] {
+            // ranges: BMP in 4 parts, astral planes in parts of 0x4000
+            let mut ranges: Vec<(u32, u32, u32, u32)> = Vec::new(); // lo, hi, stride, offset
+            for k in 0..4u32 {
+                ranges.push((k * 0x4000, (k + 1) * 0x4000, 1, 0));
+            }
+            let astral_stride: u32 = if cx.thorough { 1 } else { 16 };
+            let off = (cx.seed as u32) % astral_stride;
+            let mut lo = 0x10000u32;
+            while lo < 0x110000 {
+                ranges.push((lo, lo + 0x8000, astral_stride, off));
+                lo += 0x8000;
+            }
+            for (lo, hi, stride, off) in ranges {
+                let h = cx.sh.begin();
+                let mut s = String::with_capacity(1 << 16);
+                let _ = write!(
+                    s,
+                    "{{\"ev\":\"ES\",\"h\":{},\"enc\":\"{}\",\"source\":\"{}\",\"lo\":{},\"hi\":{},\"stride\":{},\"off\":{},\"mapped\":[",
+                    h,
+                    name,
+                    if source == Source::Utf8 { "utf8" } else { "utf16" },
+                    lo,
+                    hi,
+                    stride,
+                    off
+                );
+                let mut first = true;
+                let mut odd: Vec<u32> = Vec::new();
+                let mut cases = 0usize;
+                let mut cp = lo;
+                while cp < hi {
+                    if (0xD800..0xE000).contains(&cp) || (cp - lo) % stride != off % stride {
+                        cp += 1;
+                        continue;
+                    }
+                    cases += 1;
+                    let (r, um, _rd, out) = encode_one(e, source, cp);
+                    match r {
+                        'I' => {
+                            if !first {
+                                s.push(',');
+                            }
+                            first = false;
+                            let _ = write!(s, "[{}", cp);
+                            for b in out.iter() {
+                                let _ = write!(s, ",{}", b);
+                            }
+                            s.push(']');
+                        }
+                        'U' if um == cp && out.is_empty() => {}
+                        'U' if *name == "ISO-2022-JP" && um == 0xFFFD && out.is_empty() && (cp == 0x0E || cp == 0x0F || cp == 0x1B) => {
+                            // reported through the odd list so that the spec judges it
+                            odd.push(cp);
+                        }
+                        _ => odd.push(cp),
+                    }
+                    cp += 1;
+                }
+                s.push_str("],\"odd\":");
+                js_u32(&mut s, &odd);
+                let _ = write!(s, ",\"cases\":{}}}", cases);
+                cx.sh.line(&s);
+            }
+        }
+    }
+}
+
+/// C03: every ordered pair (and a few triples) over the class alphabet as whole texts, both sources, with and
+/// without replacement; lone / reversed / paired surrogates for UTF-16.
+fn enc_pairs(cx: &mut Ctx) {
+    let names: Vec<&str> = ENC_NAMES.iter().cloned().filter(|n| cx.wants(n)).collect();
+    for name in names.iter() {
+        let e = enc(name);
+        let core = CORE.contains(name);
+        let mut n = 0usize;
+        for source in [Source::Utf8, Source::Utf16] {
+            let mut alpha: Vec<u32> = ENC_SCALARS.to_vec();
+            if source == Source::Utf16 {
+                alpha.extend_from_slice(&LONE);
+            }
+            for &a in alpha.iter() {
+                for &b in alpha.iter() {
+                    if (0xD800..0xDC00).contains(&a) && (0xDC00..0xE000).contains(&b) {
+                        continue; // would form a pair
+                    }
+                    n += 1;
+                    if !core && !cx.thorough && (n + cx.seed as usize) % 4 != 0 {
+                        continue;
+                    }
+                    let repl = n % 2 == 0;
+                    let sink = if source == Source::Utf8 && n % 3 == 0 { ESink::Vec_ } else { ESink::Slice };
+                    ewhole(cx, &ehc(e, source, sink, repl), &[a, b], n % 5 == 0);
+                    if core && cx.thorough {
+                        ewhole(cx, &ehc(e, source, ESink::Slice, !repl), &[a, b], false);
+                    }
+                }
+                ewhole(cx, &ehc(e, source, ESink::Slice, false), &[a], false);
+                ewhole(cx, &ehc(e, source, ESink::Slice, true), &[a], true);
+            }
+            // seeded random texts
+            let cnt = if cx.thorough { 1500 } else { 150 };
+            for i in 0..cnt {
+                let len = cx.rng.below(24);
+                let items = random_text(&mut cx.rng, name, source, len);
+                ewhole(cx, &ehc(e, source, ESink::Slice, i % 2 == 0), &items, i % 3 == 0);
+            }
+        }
+    }
+}
+
+fn random_text(rng: &mut Rng, name: &str, source: Source, len: usize) -> Vec<u32> {
+    let sa = short_alphabet(name);
+    let mut v: Vec<u32> = Vec::new();
+    while v.len() < len {
+        let c = match rng.below(10) {
+            0..=2 => 0x20 + rng.below(0x5F) as u32,
+            3..=4 => *rng.pick(&sa),
+            5 => *rng.pick(&ENC_SCALARS),
+            6 => 0x3041 + rng.below(0x56) as u32,
+            7 => 0x4E00 + rng.below(0x5000) as u32,
+            8 => {
+                let c = rng.below(0x110000) as u32;
+                if (0xD800..0xE000).contains(&c) {
+                    0xFFFD
+                } else {
+                    c
+                }
+            }
+            _ => {
+                if source == Source::Utf16 && rng.chance(1, 2) {
+                    *rng.pick(&LONE)
+                } else {
+                    0xAC00 + rng.below(0x2BA4) as u32
+                }
+            }
+        };
+        if let Some(&p) = v.last() {
+            if (0xD800..0xDC00).contains(&p) && (0xDC00..0xE000).contains(&c) {
+                continue;
+            }
+        }
+        v.push(c);
+    }
+    v
+}
+
+/// C04: all cut sets of short texts x capacities around the space-check thresholds and NCR_EXTRA.
+fn enc_cutsets(cx: &mut Ctx) {
+    let names: Vec<&str> = ENC_NAMES.iter().cloned().filter(|n| cx.wants(n)).collect();
+    for (ei, name) in names.iter().enumerate() {
+        let e = enc(name);
+        let core = CORE.contains(name);
+        if !core && !cx.thorough && (cx.seed as usize + ei) % 7 != 2 {
+            continue;
+        }
+        let mut hcount = 0usize;
+        for source in [Source::Utf8, Source::Utf16] {
+            let mut alpha = short_alphabet(name);
+            if source == Source::Utf16 {
+                alpha.extend_from_slice(&LONE);
+            }
+            let maxlen = if cx.thorough { 4 } else { 3 };
+            let mut texts: Vec<Vec<u32>> = Vec::new();
+            for len in 1..=maxlen {
+                let idx: Vec<u8> = (0..alpha.len() as u8).collect();
+                let mut k = 0usize;
+                let seed = cx.seed as usize;
+                for_all_strings(&idx, len, &mut |s| {
+                    k += 1;
+                    if len == 4 && (k + seed) % 6 != 0 {
+                        return;
+                    }
+                    let t: Vec<u32> = s.iter().map(|&i| alpha[i as usize]).collect();
+                    for w in t.windows(2) {
+                        if (0xD800..0xDC00).contains(&w[0]) && (0xDC00..0xE000).contains(&w[1]) {
+                            return;
+                        }
+                    }
+                    texts.push(t);
+                });
+            }
+            for t in texts.iter() {
+                let n = t.len();
+                let ncuts = 1usize << (n - 1);
+                for mask in 0..ncuts {
+                    let mut ends: Vec<usize> = Vec::new();
+                    for i in 1..n {
+                        if mask & (1 << (i - 1)) != 0 {
+                            ends.push(i);
+                        }
+                    }
+                    hcount += 1;
+                    let repl = hcount % 2 == 0;
+                    let sink = if source == Source::Utf8 && hcount % 4 == 1 { ESink::Vec_ } else { ESink::Slice };
+                    let m = if repl { 14 } else { 4 };
+                    let caps: Vec<usize> = if repl { vec![m, m + 1, m + 2, m + 3, m + 4, m + 6, 64] } else { vec![m, m + 1, m + 2, m + 3, m + 4, 10, 11, 13, 64] };
+                    let capsel: Vec<usize> = if cx.thorough && mask % 2 == 0 { caps.clone() } else { vec![caps[(hcount / 4) % caps.len()], caps[(hcount / 4 + 3) % caps.len()]] };
+                    for c in capsel {
+                        let mut cfg = ehc(e, source, sink, repl);
+                        cfg.twins = hcount % 5 == 0;
+                        cfg.prelen = hcount % 4;
+                        let mut capf = |_i: usize| enc::CapSpec::Fixed(c);
+                        enc::run_chunked(&mut cx.sh, &cfg, t, &ends, &mut capf, hcount % 3 == 0);
+                    }
+                }
+            }
+        }
+    }
+}
+
+fn enc_random(cx: &mut Ctx) {
+    let names: Vec<&str> = ENC_NAMES.iter().cloned().filter(|n| cx.wants(n)).collect();
+    let per = if cx.thorough { 2500 } else { 250 };
+    for name in names.iter() {
+        let e = enc(name);
+        let n = if CORE.contains(name) { per } else { per / 5 };
+        for i in 0..n {
+            let source = if cx.rng.chance(1, 2) { Source::Utf8 } else { Source::Utf16 };
+            let len = if i % 10 == 0 { cx.rng.below(100) } else { cx.rng.below(20) };
+            let items = random_text(&mut cx.rng, name, source, len);
+            let sink = if source == Source::Utf8 && cx.rng.chance(1, 3) { ESink::Vec_ } else { ESink::Slice };
+            let mut cfg = ehc(e, source, sink, cx.rng.chance(1, 2));
+            cfg.twins = cx.rng.chance(1, 4);
+            cfg.prelen = cx.rng.below(6);
+            let mc = 1 + cx.rng.below(5);
+            let capmax = cx.rng.below(8);
+            let mut r2 = Rng::new(cx.rng.next());
+            enc::run_random(&mut cx.sh, &cfg, &items, &mut r2, mc, capmax);
+        }
+    }
+}
+
 fn main() {
     std::panic::set_hook(Box::new(|_| {}));
     let args: Vec<String> = std::env::args().collect();
@@ -339,6 +646,11 @@ fn main() {
         "dec-cutsets" => dec_cutsets(&mut cx),
         "dec-random" => dec_random(&mut cx),
         "dec-bom" => dec_bom(&mut cx),
+        "enc-sweep" => enc_sweep(&mut cx),
+        "enc-pairs" => enc_pairs(&mut cx),
+        "enc-cutsets" => enc_cutsets(&mut cx),
+        "enc-random" => enc_random(&mut cx),
+        "enc-replay" => enc::replay(&mut cx.sh, &arg_val(&args, "--in").expect("--in FILE")),
         "dec-replay" => dec::replay(&mut cx.sh, &arg_val(&args, "--in").expect("--in FILE")),
         _ => {
             eprintln!("unknown profile {}", profile);
